@@ -71,7 +71,7 @@ class PROP(Prop):
     shard_min = 1
     kernel_sample = 16
     rule = ("random operation sequences over the 13 operations (generic call, five typed reads, five typed writes, slave selection, set_timeout / reset_timeout, connect with and "
-            "without explicit slave / timeout) against a scripted peer (reply / exception / mismatching reply / silence under a timeout / close), executed with "
+            "without explicit slave / timeout, timeouts up to Duration::MAX) against a scripted peer (reply / exception / mismatching reply / silence under a timeout / close), executed with "
             "the real synchronous client AND the real asynchronous client over loopback TCP and over a pseudo-terminal (RTU); both compared with "
             "each other and with the model's prediction, on the frames the peer received and on every result.  non-trivial = sequence with >= 2 "
             "operations")
@@ -88,7 +88,29 @@ class PROP(Prop):
                 gid = "%s%d" % (proto, i)
                 cs.append(Case("SYNC " + body, {"g": gid, "mode": "sync", "nops": len(ops)}))
                 cs.append(Case("ASYNC " + body, {"g": gid, "mode": "async", "nops": len(ops)}))
+            # the timeout at the ends of its legal range: the largest Duration (given at connect time or set later) can never fire and
+            # behaves like no timeout; a zero timeout is legal too
+            for i in range(3 if tier == "quick" else 30):
+                ops, slave = gen_ops(rng, proto, rng.randrange(2, 6), False)
+                how = i % 3
+                if how == 0:
+                    tmo = "max"
+                elif how == 1:
+                    tmo = "-"
+                    ops.insert(rng.randrange(0, len(ops)), "timeout max")
+                else:
+                    tmo = "250"
+                    ops.insert(rng.randrange(0, len(ops)), "timeout max")
+                body = "%s %s %s %s" % (proto, tmo, "-" if slave is None else str(slave), " ; ".join(ops))
+                # for the model a timeout that cannot fire is no timeout
+                mbody = "%s %s %s %s" % (proto, "-" if tmo == "max" else tmo, "-" if slave is None else str(slave), " ; ".join("timeout -" if o == "timeout max" else o for o in ops))
+                gid = "%smax%d" % (proto, i)
+                cs.append(Case("SYNC " + body, {"g": gid, "mode": "sync", "nops": len(ops), "model_line": "SYNC " + mbody}))
+                cs.append(Case("ASYNC " + body, {"g": gid, "mode": "async", "nops": len(ops), "model_line": "ASYNC " + mbody}))
         return cs
+
+    def project(self, case, s):
+        return (s or "").replace("ok t=max", "ok t=-")
 
     def extra_checks(self, cases, tier, rng):
         by = {}
